@@ -171,7 +171,19 @@ func blobData(r *hx.Rng, n int) []byte {
 	return b
 }
 
-var aes = []string{"", "gzip", "gzip, deflate", "deflate", "gzip;q=0", "identity", "*", "x-gzip", "GZIP", "br, gzip;q=0.5", "notgzipped", "deflate, gzip;q=0.0, identity"}
+var aes = []string{"", "gzip", "gzip, deflate", "deflate", "gzip;q=0", "identity", "*", "x-gzip", "GZIP", "br, gzip;q=0.5", "notgzipped", "deflate, gzip;q=0.0, identity",
+	"gzip; Q=0.000", "gzip ;q=1", "deflate;q=0, gzip", "gzip;q=0, x-gzip;q=0.", "gzip;q=0.001", "x-gzip;q=0"}
+
+// randAE builds an Accept-Encoding value from codings, parameters and separators (element-wise reading of the header)
+func randAE(r *hx.Rng) string {
+	al := []string{"gzip", "gzip", "x-gzip", "GZip", "*", "deflate", "br", "identity", "gzipped", "notgzip", ";", ";", ",", ",", " ", "\t", "q=0", "q=0.0", "q=0.", "Q=0", "q=1", "q=0.5", "q=0.01", "q=", "q=00", "q=0x", "level=1"}
+	n := 1 + r.Intn(7)
+	s := ""
+	for i := 0; i < n; i++ {
+		s += r.Pick(al)
+	}
+	return strings.Trim(s, " \t")
+}
 
 func singles(n int) []string {
 	var out []string
@@ -373,6 +385,24 @@ func main() {
 			for _, s := range boundaryHeaders(n) {
 				get("", s)
 			}
+		}
+	}
+	// Accept-Encoding read element by element: random header values against a gzip-at-rest blob (and a plain one)
+	{
+		plain := blobData(r, 9)
+		gz, _ := util.GzipData(plain)
+		reset()
+		put(true, "f.txt", "", plain, gz)
+		for i := 0; i < a.N(250); i++ {
+			get(randAE(r), "")
+		}
+		for i := 0; i < 20; i++ {
+			get(randAE(r), "bytes=0-3")
+		}
+		reset()
+		put(false, "", "", plain, plain)
+		for i := 0; i < 10; i++ {
+			get(randAE(r), "")
 		}
 	}
 	// multi-range answers (2, 3, 4 disjoint / overlapping ranges whose sum stays below the size) for blobs WITHOUT a mime type
